@@ -303,7 +303,7 @@ def gen_tl(rs, names: List[str], n: Optional[int] = None, must: Optional[List[st
     terms = [gen_term(rs, names, must) for _ in range(n)]
     if shapes and terms and rs.random() < 0.45:
         # adversarial shapes: duplicates, parallel rows, opposite rows, boxes
-        kind = rs.choice(["dup", "parallel", "opposite", "box", "scaled", "difference", "difference", "difference", "corner", "single", "near", "partial_parallel", "ladder", "ladder", "fork", "fork", "fork", "fork", "tight_contradiction", "tight_contradiction"])
+        kind = rs.choice(["dup", "parallel", "opposite", "box", "scaled", "difference", "difference", "difference", "corner", "single", "near", "partial_parallel", "ladder", "ladder", "fork", "fork", "fork", "fork", "tight_contradiction", "tight_contradiction", "near_parallel", "near_parallel"])
         t = rs.choice(terms)
         cf = {k: float.fromhex(v[1]) for k, v in t["T"]}
         c0 = float.fromhex(t["c"][1])
@@ -361,6 +361,17 @@ def gen_tl(rs, names: List[str], n: Optional[int] = None, must: Optional[List[st
                 d2[others[-1] if len(others) > 1 else others[0]] = float(rs.choice([1, -1, 0.5]))
                 terms.append(lit_term(d1, c0))
                 terms.append(lit_term(d2, c0 if rs.random() < 0.5 else c0 + 1.0))
+        elif kind == "near_parallel":
+            # the same row typed twice with different precision in ONE coefficient ((2/3) vs 0.6666666667): nearly, not exactly,
+            # parallel - numerical rank tests and symbolic solvers may disagree on whether the pair is singular
+            if len(cf) >= 2:
+                k0 = rs.choice(sorted(cf))
+                eps = rs.choice([1e-10, -1e-10, 3e-12, 1e-9, 1e-13])
+                d2 = dict(cf)
+                d2[k0] = cf[k0] * (1.0 + eps)
+                terms.append(lit_term(d2, c0 + rs.choice([0.0, 0.0, 1.0])))
+                if rs.random() < 0.5:
+                    terms.append(lit_term({k: -v for k, v in d2.items()}, -c0 + rs.choice([0.0, 1.0])))
         elif kind == "near":
             # almost the same row: identical when printed with four significant digits, different as numbers
             eps = rs.choice([1e-6, -1e-6, 3e-9, 1e-12])
